@@ -779,6 +779,11 @@ def _size_by_cases(prog, sel, up_name):
             return min(vals) if call_name(e) in ("np.minimum", "min", "np.min", "np.amin") else max(vals)
         if isinstance(e, ast.Call) and call_name(e) in ("int", "np.int64", "np.asarray") and len(e.args) == 1:
             return ev(e.args[0], env)
+        if isinstance(e, ast.Call) and call_name(e) in ("np.count_nonzero",) and e.args and any(isinstance(n, ast.Compare) for n in ast.walk(e.args[0])):
+            return env["W"]
+        if isinstance(e, ast.Call) and call_name(e) == "np.clip" and len(e.args) == 3 and not e.keywords:
+            v, lo, hi = (ev(a, env) for a in e.args)
+            return min(max(v, lo), hi)  # numpy: minimum(maximum(v, lo), hi) - the upper bound wins when lo > hi
         if isinstance(e, ast.BinOp) and isinstance(e.op, (ast.Add, ast.Sub)):
             l, r = ev(e.left, env), ev(e.right, env)
             return l + r if isinstance(e.op, ast.Add) else l - r
